@@ -114,10 +114,13 @@ class Report:
     # ---- finish ----------------------------------------------------------
     def finish(self, ctx, explanation, assumptions=(), declined=()):
         # floors
+        # The floor guards against a rule that silently stops matching (a vacuous pass). It is half of the count confirmed by
+        # reading today's tree (at least 1): a clean-up that merges duplicated code legitimately lowers the count.
         for rid, r in self.rules.items():
-            if r["count"] < r["min"]:
+            floor = (r["min"] + 1) // 2
+            if r["count"] < floor:
                 self.add(rid, "-", None, "instance floor", UNKNOWN,
-                         "rule matched %d instance(s), fewer than the %d confirmed by reading the tree" % (r["count"], r["min"]))
+                         "rule matched %d instance(s), fewer than the floor %d (half of the %d confirmed by reading the tree)" % (r["count"], floor, r["min"]))
                 r["count"] -= 1
         viol, known_hits, unknown = [], [], []
         for i in self.instances:
